@@ -212,6 +212,7 @@ inline IndexType adjust_point_at_index(const IndexType index, DenseMatrix& data,
     bool finish = false;
     while (!finish)
     {
+        TAPKEE_VERIF_TICK("manifold_sculpting:adjust_point_at_index");
         finish = true;
         old_error = compute_error_for_point(index, data, error_func_data);
 
@@ -270,12 +271,14 @@ void manifold_sculpting_embed(RandomAccessIterator begin, RandomAccessIterator e
             (current_multiplier > multiplier_treshold)) &&
            (normal_counter++ < max_iteration))
     {
+        TAPKEE_VERIF_TICK("manifold_sculpting:main");
         /* Step 3a: Scale the data in non-preserved dimensions
          * by a factor of squishing_rate.
          */
         data.bottomRows(data.rows() - target_dimension) *= squishing_rate;
         while (average_neighbor_distance(data, neighbors) < initial_average_distance)
         {
+            TAPKEE_VERIF_TICK("manifold_sculpting:rescale");
             data.topRows(target_dimension) /= squishing_rate;
         }
         current_multiplier *= squishing_rate;
@@ -294,6 +297,7 @@ void manifold_sculpting_embed(RandomAccessIterator begin, RandomAccessIterator e
 
         while (!points_to_adjust.empty())
         {
+            TAPKEE_VERIF_TICK("manifold_sculpting:adjust_queue");
             IndexType current_point_index = points_to_adjust.front();
             points_to_adjust.pop_front();
             if (adjusted_points.count(current_point_index) == 0)
